@@ -61,7 +61,9 @@ def plan(tier):
     src = [KERNEL_HEAD]
     jobs = []
     kname = 'C11'
-    inst = [(7, 7, 'nearest', 'sat'), (15, 7, 'nearest', 'trap'), (15, 15, 'native', 'sat')]
+    inst = [(7, 7, 'nearest', 'sat'), (7, 15, 'nearest', 'trap'), (15, 15, 'native', 'sat')]      # (7, 15): fewer digits on the left (seed C11_2)
+    if thorough:
+        inst.append((15, 7, 'nearest', 'trap'))
     P_PUB = r'^auto cnl::_impl::operator[-+*/]<cnl::_impl::wrapper<'
     for (Dl, Dr, rt, ot) in inst:
         A, B = si(Dl, rt, ot), si(Dr, rt, ot)
